@@ -21,8 +21,22 @@ def HInv (s : State) : Prop := (hs s).Nodup ∧ ∀ h ∈ hs s, h < s.next
 
 def Same (s s' : State) : Prop := hs s' = hs s ∧ s'.next = s.next
 
+/-- what a step does to the handle history of (top level) entities: nothing, one fresh handle appended, or
+    (explode) a list of pairwise distinct handles appended, each fresh or (TEXT replacing an exploded ATTRIB, which
+    takes over the handle of the ATTRIB) not the handle of any entity so far -/
 def Grow (s s' : State) : Prop :=
-  s.next ≤ s'.next ∧ (hs s' = hs s ∨ ∃ h, hs s' = hs s ++ [h] ∧ s.next ≤ h ∧ h < s'.next)
+  s.next ≤ s'.next ∧ (hs s' = hs s ∨ (∃ h, hs s' = hs s ++ [h] ∧ s.next ≤ h ∧ h < s'.next) ∨
+    (∃ l, hs s' = hs s ++ l ∧ l.Nodup ∧ ∀ h ∈ l, (s.next ≤ h ∨ h ∉ hs s) ∧ h < s'.next))
+
+/-- all handles ever issued to entities, sub-entities (VERTEX, ATTRIB, SEQEND) included -/
+def ahs (s : State) : List Nat := (s.ents.map (fun e => e.h :: e.subs)).flatten
+
+/-- sub-entities included: all handles ever issued are pairwise distinct and below the generator -/
+def AHInv (s : State) : Prop := (ahs s).Nodup ∧ ∀ h ∈ ahs s, h < s.next
+
+/-- effect of a step on the full handle history: a list of pairwise distinct fresh handles is appended -/
+def GrowA (s s' : State) : Prop :=
+  s.next ≤ s'.next ∧ ∃ l, ahs s' = ahs s ++ l ∧ l.Nodup ∧ ∀ h ∈ l, s.next ≤ h ∧ h < s'.next
 
 /-- structural invariant of the entity spaces: block-record keys unique and below the generator,
     every handle occurs at most once over ALL spaces, and only handles of created entities occur -/
